@@ -149,7 +149,8 @@ def spline(potential_forms, potential_form_builder):
     return getattr(p, 'potential_form', getattr(p, 'modifier', None))
 
   allowed_spline_types = [s.spline_keyword for s in spline_factories]
-  if not _label(pot2) in allowed_spline_types:
+  # (the spline type is a plain keyword: 'exp_spline(...)' written as a modifier is not one of them)
+  if not getattr(pot2, 'potential_form', None) in allowed_spline_types:
     allowed_spline_types_str = ["'{}'".format(t) for t in allowed_spline_types]
     allowed_spline_types_str = ",".join(allowed_spline_types_str)
     raise ConfigurationException("spline modifier only accepts spline types {} for middle potential form. '{}' was found instead".format(
